@@ -246,8 +246,9 @@ JudgeHash(ev) ==
               \cup (IF A_Released(ev) THEN {"Released"} ELSE {})
               \cup (IF AnyFault(ev) THEN {"Balanced"} ELSE {})
               \cup (IF ObservedSuccess(ev) THEN {"Shape"} ELSE {})
-  IN [viol |-> coreV \cup conc, ants |-> ants,
-      div |-> IF AnyFault(ev) THEN {}
+  IN [viol |-> IF ev.rel = 1 THEN {} ELSE coreV \cup conc, ants |-> IF ev.rel = 1 THEN {} ELSE ants,
+      \* (events of the reference library are data, not judged: it has the defects this tree repaired)
+      div |-> IF AnyFault(ev) \/ ev.rel = 1 THEN {}
               ELSE IF oc.spec = "ok" /\ ~ObservedSuccess(ev) /\ ~AnyFault(ev) /\ SzClass(ev.size) \in {"sizeof", "big"}
                  THEN {[l |-> l, d |-> "model-ok-code-fail"]}
               ELSE IF oc.spec = "fail" /\ ObservedSuccess(ev) THEN {[l |-> l, d |-> "model-fail-code-ok"]}
